@@ -340,6 +340,55 @@ def long_names_and_values(prefix: str = "C08") -> Optional[dict]:
     return None
 
 
+def body_exceptions(prefix: str = "C08") -> Optional[dict]:
+    """If the body runs, what it raises is what the caller gets - the same exception object - whatever its class:
+    TypeError (the class a mis-call raises), its subclasses, ValueError, KeyError, AssertionError, the library's own
+    InvalidArgsError; with and without a checked return value; and an invalid argument still wins before the body."""
+    from koda_validate.signature import InvalidArgsError, validate_signature
+    from ..corr import drive
+
+    class MyTypeError(TypeError):
+        pass
+    excs = [TypeError("unsupported operand type(s) for *: 'int' and 'NoneType'"), MyTypeError("mine"), ValueError("v"), KeyError("k"), AssertionError("a"),
+            AttributeError("x"), LookupError("l"), InvalidArgsError({}), RuntimeError("r"), TypeError()]
+    for is_async in (False, True):
+        for with_ret in (False, True):
+            for exc in excs:
+                ran: list = []
+                if is_async:
+                    async def f(a, scale=None, *rest, **kw):
+                        ran.append(a)
+                        raise exc
+                else:
+                    def f(a, scale=None, *rest, **kw):  # type: ignore[misc]
+                        ran.append(a)
+                        raise exc
+                f.__annotations__ = {"a": int, **({"return": int} if with_ret else {})}
+                w = validate_signature(f)
+                where = f"{'async ' if is_async else ''}f(a: int, scale=None, *rest, **kw){' -> int' if with_ret else ''} whose body raises {exc!r}"
+                for args, kw in (((1,), {}), ((1, 2, 3), {"k": 4})):
+                    del ran[:]
+                    try:
+                        r = w(*args, **kw)
+                        r = drive(r) if is_async else r
+                        got = None
+                    except BaseException as e:  # noqa
+                        r, got = None, e
+                    if got is not exc or ran != [1]:
+                        return {"signature": f"{prefix}:body-exception", "what": f"{where}, called with valid arguments {args!r} {kw!r}: the caller got {got!r} "
+                                                                           f"(the body's own exception object: {got is exc}), returned {r!r}, body runs {ran!r}"}
+                del ran[:]
+                try:
+                    r = w("not an int")
+                    r = drive(r) if is_async else r
+                    got = None
+                except BaseException as e:  # noqa
+                    got = e
+                if type(got) is not InvalidArgsError or ran or set(got.errs) != {"a"}:
+                    return {"signature": f"{prefix}:body-exception", "what": f"{where}, called with an invalid argument: expected InvalidArgsError for 'a' before the body, got {got!r}, body runs {ran!r}"}
+    return None
+
+
 def parameter_names() -> Optional[dict]:
     """Which argument is checked by which validator depends on the parameter's kind and annotation, not on its
     *name*: parameters (and **kwargs entries) called self, cls, args, kwargs, return, _ are checked like any other."""
@@ -434,6 +483,9 @@ def run(tier: str, rng: random.Random, proof_ok: bool, oracle_fn=oracle, name="C
         pn = parameter_names()
         if pn:
             violations.append({"kind": "oracle", **pn, "replay_case": {"parameter_names": True}})
+        be = body_exceptions("C08")
+        if be:
+            violations.append({"kind": "oracle", **be, "replay_case": {"body_exceptions": True}})
         ip = ignored_parameters("C08")
         if ip:
             violations.append({"kind": "oracle", **ip, "replay_case": {"ignored_parameters": True}})
@@ -536,6 +588,10 @@ def replay(path: str, oracle_fn=oracle) -> int:
     if cj.get("parameter_names"):
         r = parameter_names()
         print("property violated: " + r["what"] if r else "property holds whatever the parameters are called")
+        return 1 if r else 0
+    if cj.get("body_exceptions"):
+        r = body_exceptions("C08")
+        print("property violated: " + r["what"] if r else "the body's own exception reaches the caller unchanged, whatever its class")
         return 1 if r else 0
     if cj.get("ignored_parameters"):
         r = ignored_parameters("C08")
